@@ -171,7 +171,7 @@ def c01_finding(o, v):
 
 
 def random_cfg(rng, small=True):
-    lo = rng.choice([21, 48, 60])
+    lo = rng.choice([0, 21, 48, 60])
     c = {"ppqn": rng.choice([24, 24, 24, 48, 12, 96]), "tracks": rng.randint(1, 4), "pitLo": lo, "pitHi": rng.choice([lo + 2, 72, 108]),
          "steps": DEFAULT_STEPS if rng.random() < .7 else [2, 4, 8, 12, 24],
          "values": rng.choice([[4, 6, 8, 9, 12, 16, 18, 24, 36], [6, 12, 24], [12, 24, 48, 96], [2, 4, 8]]),
@@ -443,6 +443,9 @@ def closure_cases(ctx):
     for val in (1, 2, 3, 4, 5, 6, 9, 12, 18, 24, 36, 48, 96, 100):
         for fuse in (True, False):
             cases.append((len(cases), dict(base, fuseVal=fuse), {"tracks": one(val=val), "sigs": [], "end": 96, "cap": True, "bars": False}, f"value {val}"))
+            # the default note values contain durations that are not rest step sizes (9, 18, 36)
+            dv = dict(base, fuseVal=fuse, values=[4, 6, 8, 9, 12, 16, 18, 24, 36], pitLo=0, pitHi=12)
+            cases.append((len(cases), dv, {"tracks": one(p=(val % 13), val=val), "sigs": [], "end": 96, "cap": True, "bars": False}, f"default values {val}"))
     for nt in (1, 2, 3):
         for fuse in (True, False):
             c = dict(base, tracks=nt, fuseTrk=fuse)
